@@ -268,11 +268,14 @@ def load(config="lib"):
     F = Facts(docs, config, fact_dir)
     F.inlined = {}
     F.desugared = {}
+    F.forwarded = {}
     if not os.environ.get("ESPADA_NO_INLINE"):
         from . import desugar, inline
         if not os.environ.get("ESPADA_NO_DESUGAR"):
             F.desugared = desugar.normalise(F)
         F.inlined = inline.normalise(F)
+        from . import placefwd
+        F.forwarded = placefwd.normalise(F)
     return F
 
 
